@@ -21,6 +21,7 @@ Verdict(c) ==
     [] c.fn = "fusion"  -> FusionVerdict(c)
     [] c.fn = "optimize" -> OptimizeVerdict(c)
     [] c.fn = "rechunk_spec" -> RechunkSpecVerdict(c)
+    [] c.fn = "joint" -> JointVerdict(c)
     [] c.fn = "unknown" -> UnknownVerdict(c)
     [] c.fn = "entry" -> EntryVerdict(c)
     [] c.fn = "io" -> IOVerdict(c)
